@@ -28,7 +28,15 @@ type FakeChain struct {
 	// HeaderVersion, if non-zero, is the CurrVersion recorded in the synthetic headers
 	// (the key under which YP is installed in params.Versions); default YP.Version
 	HeaderVersion params.YouVersion
-	headers       map[uint64]*types.Header
+	// DefaultRoot, if set, is the validator root of every synthetic header that has no entry in
+	// RootOf (a decoy set: the look-back a verifier has to use is then the only header with the
+	// real set's root)
+	DefaultRoot *common.Hash
+	RootOf      map[uint64]common.Hash
+	// Pinned headers are returned for their number even above Head (a block the node already
+	// holds as canonical at the height that is being verified)
+	Pinned  map[uint64]*types.Header
+	headers map[uint64]*types.Header
 	Updated       []*types.Header
 }
 
@@ -45,6 +53,9 @@ func (c *FakeChain) SeedOf(number uint64) common.Hash {
 func (c *FakeChain) header(n uint64) *types.Header {
 	c.mu.Lock()
 	defer c.mu.Unlock()
+	if h, ok := c.Pinned[n]; ok {
+		return h
+	}
 	if n > c.Head {
 		return nil
 	}
@@ -52,6 +63,12 @@ func (c *FakeChain) header(n uint64) *types.Header {
 		return h
 	}
 	root := c.Set.ValRoot
+	if c.DefaultRoot != nil {
+		root = *c.DefaultRoot
+	}
+	if r, ok := c.RootOf[n]; ok {
+		root = r
+	}
 	if n == 0 && c.CertValRoot != nil {
 		root = *c.CertValRoot
 	}
@@ -63,6 +80,20 @@ func (c *FakeChain) header(n uint64) *types.Header {
 	h.Time = 1000 + n
 	c.headers[n] = h
 	return h
+}
+
+// Pin makes h the header the chain returns for its number (nil removes the pin).
+func (c *FakeChain) Pin(n uint64, h *types.Header) {
+	c.mu.Lock()
+	defer c.mu.Unlock()
+	if c.Pinned == nil {
+		c.Pinned = map[uint64]*types.Header{}
+	}
+	if h == nil {
+		delete(c.Pinned, n)
+		return
+	}
+	c.Pinned[n] = h
 }
 
 func (c *FakeChain) VersionForRound(round uint64) (*params.YouParams, error) { return c.YP, nil }
